@@ -8,6 +8,8 @@
    annotation and every configuration [c] of the casting algorithm. *)
 From Coq Require Import List Bool NArith ZArith.
 From PV Require Import Base.Str Base.Value Typed.GValue Typed.Cast Typed.Collect Typed.PdSpec Typed.TypedDocs Typed.PdCheck Typed.Witness.
+From PV Require Import Typed.CastShape Typed.CollectFacts.
+From Coq Require Import Permutation Sorted.
 From PVGen Require PdPaths.
 Import ListNotations.
 
@@ -78,6 +80,157 @@ Theorem C13_typed_generic_field :
 Proof. exact typed_generic_field. Qed.
 Print Assumptions C13_typed_generic_field.
 
+
+(* ---- counting, path, order, locality and nesting forms (Typed/CollectFacts.v) ---- *)
+
+(* EXACTLY ONCE as a count: as many documents are collected as there are positions -- at any depth, any width -- whose node
+   the union recognises as a policy document / named wrapper and that have no accepted proper ancestor *)
+Theorem C13_count :
+  forall (c : cfg) (g : gvalue), length (collect (cast c g)) = count_pd_positions false c g.
+Proof. exact count_exactly_once. Qed.
+Print Assumptions C13_count.
+Theorem C13_count_spec :
+  forall (c : cfg) (g : gvalue), hidden_free c g = true -> length (collect (cast c g)) = count_pd_positions true c g.
+Proof. exact count_exactly_once_spec. Qed.
+Print Assumptions C13_count_spec.
+Theorem C13_count_resource :
+  forall (c : cfg) (props : list (str * gvalue)),
+    length (resource_docs c props) = list_sum (map (fun kv => count_pd_positions false c (snd kv)) props).
+Proof. exact resource_count. Qed.
+Print Assumptions C13_count_resource.
+
+(* EXACTLY ONCE as paths: the collected list is, document by document and in order, a list of documents found at pairwise
+   DISTINCT paths of the input, each path leading to a node the union recognises as a document / named wrapper *)
+Theorem C13_distinct_paths :
+  forall (c : cfg) (g : gvalue),
+  exists ps : list (path * pdoc),
+    map snd ps = collect (cast c g) /\ NoDup (map fst ps) /\
+    forall p d, In (p, d) ps -> exists x r, gat g p = Some x /\ node_choice c x = CProp r /\ In d (yields r).
+Proof. exact collected_at_distinct_paths. Qed.
+Print Assumptions C13_distinct_paths.
+(* the enumeration of ALL positions lists every path once, and each path leads to the node it is listed with *)
+Theorem C13_positions_distinct :
+  forall (deep : bool) (c : cfg) (g : gvalue) (cut : bool), NoDup (map fst (positions_p deep c cut g)).
+Proof. exact positions_p_NoDup. Qed.
+Print Assumptions C13_positions_distinct.
+Theorem C13_positions_are_paths :
+  forall (deep : bool) (c : cfg) (g : gvalue) (cut : bool) (p : path) (y : bool * gvalue),
+    In (p, y) (positions_p deep c cut g) -> gat g p = Some (snd y).
+Proof. exact positions_p_gat. Qed.
+Print Assumptions C13_positions_are_paths.
+Theorem C13_positions_erase :
+  forall (deep : bool) (c : cfg) (g : gvalue) (cut : bool), map snd (positions_p deep c cut g) = positions deep c cut g.
+Proof. exact positions_p_erase. Qed.
+Print Assumptions C13_positions_erase.
+Theorem C13_embedded_paths_docs :
+  forall (deep : bool) (c : cfg) (g : gvalue), map snd (embedded_p deep c g) = embedded deep c g.
+Proof. exact embedded_p_docs. Qed.
+Print Assumptions C13_embedded_paths_docs.
+
+(* ORDER: documents come in document order -- what a list of properties / a plain object / an array yields is the
+   concatenation, member by member, of what the members yield *)
+Theorem C13_order_properties :
+  forall (c : cfg) (p1 p2 : list (str * gvalue)), resource_docs c (p1 ++ p2) = resource_docs c p1 ++ resource_docs c p2.
+Proof. exact resource_docs_app. Qed.
+Print Assumptions C13_order_properties.
+Theorem C13_order_object :
+  forall (c : cfg) (d : list (str * gvalue)) (r : option recog),
+    choose c (GDict d r) = CNone -> collect (cast c (GDict d r)) = resource_docs c d.
+Proof. exact collect_object_members. Qed.
+Print Assumptions C13_order_object.
+Theorem C13_order_object_app :
+  forall (c : cfg) (m1 m2 : list (str * gvalue)) (r : option recog),
+    choose c (GDict (m1 ++ m2) r) = CNone ->
+    collect (cast c (GDict (m1 ++ m2) r)) = resource_docs c m1 ++ resource_docs c m2.
+Proof. exact collect_object_app. Qed.
+Print Assumptions C13_order_object_app.
+Theorem C13_order_generic_app :
+  forall m1 m2 : list (str * tval), collect (TGeneric (m1 ++ m2)) = collect (TGeneric m1) ++ collect (TGeneric m2).
+Proof. exact collect_generic_app. Qed.
+Print Assumptions C13_order_generic_app.
+Theorem C13_order_tlist_app :
+  forall l1 l2 : list tval, collect (TList (l1 ++ l2)) = collect (TList l1) ++ collect (TList l2).
+Proof. exact collect_tlist_app. Qed.
+Print Assumptions C13_order_tlist_app.
+(* arrays: a typed array holds no document, any other array yields what its members yield, in order ... *)
+Theorem C13_order_list :
+  forall (c : cfg) (l : list gvalue),
+    collect (cast c (GList l)) = if accepted c (GList l) then [] else list_docs c l.
+Proof. exact collect_list. Qed.
+Print Assumptions C13_order_list.
+(* ... unconditionally so when text that encodes a container is not also read as a boolean / number / date / network *)
+Theorem C13_order_list_members :
+  forall (c : cfg) (l : list gvalue),
+    forallb container_text_coherent l = true -> collect (cast c (GList l)) = list_docs c l.
+Proof. exact collect_list_members. Qed.
+Print Assumptions C13_order_list_members.
+Theorem C13_order_list_app :
+  forall (c : cfg) (l1 l2 : list gvalue),
+    forallb container_text_coherent (l1 ++ l2) = true ->
+    collect (cast c (GList (l1 ++ l2))) = collect (cast c (GList l1)) ++ collect (cast c (GList l2)).
+Proof. exact collect_list_app. Qed.
+Print Assumptions C13_order_list_app.
+
+(* ORDER on paths: positions are enumerated, and documents therefore collected, in DOCUMENT ORDER (a node before its members,
+   members in the order written): the paths are strictly increasing in the pre-order [path_lt], a strict order *)
+Theorem C13_positions_in_document_order :
+  forall (deep : bool) (c : cfg) (g : gvalue) (cut : bool),
+    Sorted.StronglySorted path_lt (map fst (positions_p deep c cut g)).
+Proof. exact positions_p_sorted. Qed.
+Print Assumptions C13_positions_in_document_order.
+Theorem C13_collected_in_document_order :
+  forall (c : cfg) (g : gvalue),
+  exists ps : list (path * pdoc),
+    map snd ps = collect (cast c g) /\ Sorted.StronglySorted path_lt (map fst ps) /\
+    forall p d, In (p, d) ps -> exists x r, gat g p = Some x /\ node_choice c x = CProp r /\ In d (yields r).
+Proof. exact collected_in_document_order. Qed.
+Print Assumptions C13_collected_in_document_order.
+Theorem C13_path_lt_irrefl : forall p : path, ~ path_lt p p.
+Proof. exact path_lt_irrefl. Qed.
+Print Assumptions C13_path_lt_irrefl.
+Theorem C13_path_lt_trans : forall p q r : path, path_lt p q -> path_lt q r -> path_lt p r.
+Proof. exact path_lt_trans. Qed.
+Print Assumptions C13_path_lt_trans.
+
+(* LOCALITY: what one property yields depends on that property's value only -- not on the other properties, not on any key,
+   and (Python iterates a set of field names) the order of the properties only permutes the result *)
+Theorem C13_locality :
+  forall (c : cfg) (p1 : list (str * gvalue)) (k : str) (v : gvalue) (p2 : list (str * gvalue)),
+    resource_docs c (p1 ++ (k, v) :: p2) = resource_docs c p1 ++ collect (cast c v) ++ resource_docs c p2.
+Proof. exact resource_docs_middle. Qed.
+Print Assumptions C13_locality.
+Theorem C13_keys_irrelevant :
+  forall (c : cfg) (p p' : list (str * gvalue)), map snd p = map snd p' -> resource_docs c p = resource_docs c p'.
+Proof. exact resource_docs_keys_irrelevant. Qed.
+Print Assumptions C13_keys_irrelevant.
+Theorem C13_property_order :
+  forall (c : cfg) (p p' : list (str * gvalue)), Permutation p p' -> Permutation (resource_docs c p) (resource_docs c p').
+Proof. exact resource_docs_perm. Qed.
+Print Assumptions C13_property_order.
+
+(* NESTING: a node the union recognises as a property model is a LEAF of the search -- it yields its own document (or
+   nothing) whatever its members hold; an object the recogniser rejects is searched member by member *)
+Theorem C13_recognised_is_leaf :
+  forall (c : cfg) (d : list (str * gvalue)) (r : option recog) (r' : recog),
+    choose c (GDict d r) = CProp r' -> collect (cast c (GDict d r)) = yields r'.
+Proof. exact recognised_is_leaf. Qed.
+Print Assumptions C13_recognised_is_leaf.
+Theorem C13_recognised_json_is_leaf :
+  forall (c : cfg) (s : str) (j : gvalue) (a : sann) (r' : recog),
+    choose c j = CProp r' -> collect (cast c (GStr s (Some j) a)) = yields r'.
+Proof. exact recognised_json_is_leaf. Qed.
+Print Assumptions C13_recognised_json_is_leaf.
+Theorem C13_recognised_members_irrelevant :
+  forall (c : cfg) (d d' : list (str * gvalue)) (r : option recog),
+    map fst d = map fst d' -> is_cnone (choose c (GDict d r)) = false -> fnb c (GDict d r) = false ->
+    collect (cast c (GDict d r)) = collect (cast c (GDict d' r)).
+Proof. exact recognised_members_irrelevant. Qed.
+Print Assumptions C13_recognised_members_irrelevant.
+Theorem C13_lookalike_is_searched :
+  forall (c : cfg) (d : list (str * gvalue)), fnb c (GDict d None) = false -> collect (cast c (GDict d None)) = resource_docs c d.
+Proof. exact lookalike_is_searched. Qed.
+Print Assumptions C13_lookalike_is_searched.
+
 (* ---- non-vacuity and witnesses ---- *)
 From Coq Require Import String.
 Local Open Scope string_scope.
@@ -104,3 +257,57 @@ Example C13_ex_role_dedicated :
   /\ dedicated_docs r [(s "AssumeRolePolicyDocument", doc_node "trust"); (s "Policies", GList [policy_node "p" "s1"])]
      = [(None, stmts "trust")].
 Proof. eexists. vm_compute. repeat split; reflexivity. Qed.
+
+(* ---- Typed/CollectFacts.v: non-vacuity ---- *)
+(* five documents at five distinct paths: $.A, $.B[0], $.B[1][0], $.C.D.E (JSON text), $.P[0]; 35 positions in all *)
+Example C13_ex_count :
+  map (fun kv => count_pd_positions false SPEC (snd kv)) props_found = [1; 2; 1; 1; 0; 0]%nat
+  /\ List.length (resource_docs SPEC props_found) = 5%nat
+  /\ List.length (positions false SPEC false (GDict props_found None)) = 35%nat
+  /\ forallb (fun kv => hidden_free SPEC (snd kv)) props_found = true.
+Proof. vm_compute. repeat split; reflexivity. Qed.
+Example C13_ex_paths :
+  map fst (embedded_p false SPEC (GDict props_found None)) =
+  [[Mem 0 (s "A")]; [Mem 1 (s "B"); Idx 0]; [Mem 1 (s "B"); Idx 1; Idx 0]; [Mem 2 (s "C"); Mem 0 (s "D"); Mem 0 (s "E")];
+   [Mem 3 (s "P"); Idx 0]]
+  /\ map snd (embedded_p false SPEC (GDict props_found None)) = resource_docs SPEC props_found.
+Proof. vm_compute. split; reflexivity. Qed.
+Example C13_ex_document_order :
+  path_lt [Mem 0 (s "A")] [Mem 1 (s "B"); Idx 0] /\ path_lt [Mem 1 (s "B"); Idx 0] [Mem 1 (s "B"); Idx 1; Idx 0]
+  /\ path_lt [Mem 1 (s "B")] [Mem 1 (s "B"); Idx 0] /\ path_ltb [Mem 1 (s "B"); Idx 1; Idx 0] [Mem 1 (s "B"); Idx 0] = false.
+Proof. vm_compute. repeat split; reflexivity. Qed.
+(* F16 as a count: the property's reading counts one position, the code finds none *)
+Example C13_ex_count_hidden :
+  map (fun kv => count_pd_positions true SPEC (snd kv)) props_hidden = [1]%nat
+  /\ map (fun kv => count_pd_positions false SPEC (snd kv)) props_hidden = [0]%nat
+  /\ List.length (resource_docs SPEC props_hidden) = 0%nat.
+Proof. vm_compute. repeat split; reflexivity. Qed.
+(* hypotheses of the order / locality theorems *)
+Example C13_ex_order_hyps :
+  choose SPEC (GDict props_found None) = CNone
+  /\ forallb container_text_coherent (map snd props_found) = true
+  /\ accepted SPEC (GList [g_int_1; g_int_1]) = true /\ accepted SPEC (GList (map snd props_found)) = false
+  /\ collect (cast SPEC (GList (map snd props_found))) = resource_docs SPEC props_found.
+Proof. vm_compute. repeat split; reflexivity. Qed.
+Example C13_ex_keys_perm :
+  resource_docs SPEC [(s "X", doc_node "s1"); (s "Y", GList [doc_node "s2"])]
+  = resource_docs SPEC [(s "Q", doc_node "s1"); (s "Q", GList [doc_node "s2"])]
+  /\ Permutation [(s "X", doc_node "s1"); (s "Y", GList [doc_node "s2"])] [(s "Y", GList [doc_node "s2"]); (s "X", doc_node "s1")]
+  /\ resource_docs SPEC [(s "Y", GList [doc_node "s2"]); (s "X", doc_node "s1")] = [(None, stmts "s2"); (None, stmts "s1")].
+Proof. split; [vm_compute; reflexivity|]. split; [apply perm_swap|vm_compute; reflexivity]. Qed.
+
+(* NESTING, as the code does it (each replayed on pycfmodel):
+   a document under an extra key of a recognised document is NOT collected, the outer one is, once;
+   a named wrapper yields its document once, under its name -- the PolicyDocument member is not reported a second time;
+   a "document" whose statement carries a Condition value the schema rejects (here: an object, itself a document) is not a
+   document for pydantic: it is searched like any object, the inner document is collected and the look-alike is not *)
+Example C13_ex_nested :
+  choose SPEC doc_with_extra = CProp {| r_kind := PkPolicyDocument; r_dump := s "doc outer"; r_name := None; r_doc := stmts "outer" |}
+  /\ resource_docs SPEC [(s "A", doc_with_extra)] = [(None, stmts "outer")]
+  /\ count_pd_positions false SPEC doc_with_extra = 1%nat
+  /\ resource_docs SPEC [(s "A", policy_node "n" "s1")] = [(Some (s "n"), stmts "s1")]
+  /\ count_pd_positions false SPEC (policy_node "n" "s1") = 1%nat
+  /\ fnb SPEC doc_lookalike = false
+  /\ resource_docs SPEC [(s "A", doc_lookalike)] = [(None, stmts "inner")]
+  /\ map fst (embedded_p false SPEC doc_lookalike) = [[Mem 0 (s "Statement"); Idx 0; Mem 2 (s "Condition"); Mem 0 (s "StringEquals"); Mem 0 (s "aws:x")]].
+Proof. vm_compute. repeat split; reflexivity. Qed.
